@@ -137,6 +137,58 @@ pub fn run(opts: &Opts) -> i32 {
             Err(e) => infra_err = Some(e),
         }
     }
+    // ---- the no-mmap feature configuration (C08's quantifier): load_full / load_mem only
+    if opts.prop == "C08" && opts.replay.is_none() {
+        build::set_variant("-nommap");
+        match build::prepare(opts, &["fixed".to_string()]) {
+            Ok(us) => {
+                for (label, u) in &us {
+                    match build::run_bin(label, &opts.prop, opts, &[]) {
+                        Ok(mut r) => {
+                            if let Some(fs) = r["failures"].as_array_mut() {
+                                for f in fs.iter_mut() {
+                                    f["universe"] = json!(label);
+                                    f["message"] = json!(format!("[epserde built without the mmap feature] {}", f["message"].as_str().unwrap_or("")));
+                                }
+                            }
+                            agg.add_report(&r);
+                            agg.universes.push(json!({"label": format!("{} (no-mmap build)", label), "definitions": u.adts.len(), "subjects": u.subjects.len(), "wall_s": r["wall_s"]}));
+                        }
+                        Err(e) => infra_err = Some(e),
+                    }
+                }
+            }
+            Err(e) => infra_err = Some(format!("no-mmap configuration: {}", e)),
+        }
+        build::set_variant("");
+    }
+    // ---- thorough: the same oracles under AddressSanitizer (no tracking allocator)
+    const ASAN_PROPS: [&str; 10] = ["C01", "C02", "C03", "C08", "C11", "C12", "C13", "C14", "C15", "C16"];
+    if opts.tier == "thorough" && opts.replay.is_none() && ASAN_PROPS.contains(&opts.prop.as_str()) {
+        build::set_variant("-asan");
+        let labels = vec!["fixed".to_string(), "extra".to_string(), format!("s{}", opts.seed)];
+        match build::prepare(opts, &labels) {
+            Ok(us) => {
+                for (label, u) in &us {
+                    match build::run_bin(label, &opts.prop, opts, &[]) {
+                        Ok(mut r) => {
+                            if let Some(fs) = r["failures"].as_array_mut() {
+                                for f in fs.iter_mut() {
+                                    f["universe"] = json!(label);
+                                    f["message"] = json!(format!("[AddressSanitizer build] {}", f["message"].as_str().unwrap_or("")));
+                                }
+                            }
+                            agg.add_report(&r);
+                            agg.universes.push(json!({"label": format!("{} (AddressSanitizer)", label), "definitions": u.adts.len(), "subjects": u.subjects.len(), "wall_s": r["wall_s"]}));
+                        }
+                        Err(e) => infra_err = Some(e),
+                    }
+                }
+            }
+            Err(e) => infra_err = Some(format!("AddressSanitizer build: {}", e)),
+        }
+        build::set_variant("");
+    }
     let code = finish(opts, &pi, agg, start, infra_err);
     code
 }
